@@ -215,6 +215,9 @@ func (c *corpus) prepare(cs *corpusSchema, rng *RNG) {
 	cs.Files, cs.GenErr, cs.GenPanic, cs.GenStack = res.Files, res.Err, res.Panic, res.Stack
 	if cs.GenErr != nil || cs.GenPanic != nil {
 		c.r.Count("corpus.pipeline_errors", 1)
+		if os.Getenv("VERIF_DEBUG") != "" {
+			fmt.Println("DEBUG pipeline error", cs.ID, cs.Format, truncate(fmt.Sprint(cs.GenErr, cs.GenPanic), 300))
+		}
 		return
 	}
 	c.r.Count("corpus.pipelines_ok", 1)
